@@ -33,11 +33,13 @@ const (
 	mvZero   // the zero value of an opaque type
 	mvOpaque // something the table does not look at
 	mvSlice  // the slice argument itself
+	mvSub    // the sub-string / sub-slice [n:m] of the argument
 )
 
 type mv struct {
 	k      mvKind
 	n      int64
+	m      int64
 	b      bool
 	fields map[int]mv
 }
@@ -325,7 +327,28 @@ func miniEval(fn *ssa.Function, args map[*ssa.Parameter]mv, env miniEnv) (miniOu
 					vals[x] = mv{k: mvOpaque}
 					continue
 				}
-				return miniOut{}, false, "re-slicing"
+				if x.X != ssa.Value(env.slice) || x.Max != nil {
+					return miniOut{}, false, "re-slicing something other than the argument"
+				}
+				lo, hi := int64(0), env.length
+				if x.Low != nil {
+					v, ok := get(x.Low)
+					if !ok || v.k != mvInt {
+						return miniOut{}, false, "slice bound is not an integer the table knows"
+					}
+					lo = v.n
+				}
+				if x.High != nil {
+					v, ok := get(x.High)
+					if !ok || v.k != mvInt {
+						return miniOut{}, false, "slice bound is not an integer the table knows"
+					}
+					hi = v.n
+				}
+				if lo < 0 || hi < lo || hi > env.length {
+					return miniOut{panics: true, why: fmt.Sprintf("slice bounds [%d:%d] with length %d", lo, hi, env.length)}, true, ""
+				}
+				vals[x] = mv{k: mvSub, n: lo, m: hi}
 			case *ssa.Extract:
 				tv, ok := vals[x.Tuple]
 				if !ok || tv.k != mvStruct {
